@@ -1,0 +1,19 @@
+//go:build verif
+// +build verif
+
+package bluge
+
+import "github.com/blugelabs/bluge/index"
+
+// VerifIndexConfig exposes the index configuration carried by this Config
+// (verification hook, only built with -tags verif).
+func (config Config) VerifIndexConfig() index.Config {
+	return config.indexConfig
+}
+
+// VerifWithIndexConfig returns a copy of this Config using the supplied index
+// configuration (verification hook, only built with -tags verif).
+func (config Config) VerifWithIndexConfig(ic index.Config) Config {
+	config.indexConfig = ic
+	return config
+}
